@@ -312,7 +312,7 @@ def module_positions_preserved(H, shape):
     H.cover("reached")
 
 
-@contract("legacy_module_high_byte", ["C04", "C14"], targets=["rv.readers.sunvox:SunVoxReader.process_end_of_file",
+@contract("legacy_module_high_byte", ["C04", "C14", "C12"], targets=["rv.readers.sunvox:SunVoxReader.process_end_of_file",
                                                         "rv.readers.pattern:PatternReader.process_PEND", "rv.note:Note.raw_data (setter)"])
 def legacy_module_high_byte(H, _):
     """A pattern cell's module number: files stamped with a version below 1.9.5.0 get the high byte
@@ -577,3 +577,70 @@ def foreign_canary(H, _):
     w = H.int("word", *K.U32)
     H.call(r.process_SMIC, F.enc_u32(w))
     H.check("canary_SMIC_is_unsigned", r._object.midi_out_channel == w)
+
+
+def _array_fixture_cases(tier):
+    names = ["multictl.sunsynth", "waveshaper.sunsynth", "multisynth.sunsynth", "generator.sunsynth", "analog-generator.sunsynth", "spectravoice.sunsynth"]
+    root = os.path.join(os.environ.get("RV_REPO", "/repo"), "tests", "files")
+    return [(n, os.path.join(root, n)) for n in names if os.path.exists(os.path.join(root, n))]
+
+
+@contract(
+    "absent_array_chunks_leave_documented_default_every_time", ["C04", "C17"], kind="bounded", cases=_array_fixture_cases,
+    targets=["rv.chunks.array:ArrayChunk.reset", "rv.chunks.array:ArrayChunk.__init__", "rv.chunks.waveform:WaveformChunk.__init__",
+             "rv.readers.module:ModuleReader._load_last_chunk"],
+    bound="the listed fixtures with every module-specific array / waveform chunk dropped (a structure-preserving edit: these chunks are optional); "
+          "load, edit every element of the loaded arrays in place, load the same bytes again; natively",
+)
+def absent_array_chunks_leave_documented_default_every_time(H, path):
+    """Dropping the optional module-specific chunks leaves each array at the default the specification
+    documents - on the first load and again on a second load made after the first object's arrays were
+    edited in place (the default must not be a list shared with earlier objects)."""
+    from spec import yamlspec
+
+    data = open(path, "rb").read()
+    chunks = F.parse_stream(data)
+    keep = []
+    skip = 0
+    for cid, payload in chunks:
+        b = bytes(cid)
+        if b in (b"CHNK",):
+            continue
+        if b == b"CHNM":
+            skip = 1
+            continue
+        if skip and b in (b"CHDT", b"CHFF", b"CHFR"):
+            continue
+        skip = 0
+        keep.append((cid, payload))
+    stripped = _stream(keep)
+    a = _load(stripped).module
+    spec = yamlspec.spec_by_mtype()[type(a).mtype]
+    alias = {"note_velocity_curve": "nv_curve", "velocity_velocity_curve": "vv_curve", "note_pitch_curve": "np_curve"}
+
+    def defaults_ok(m, tag):
+        for ch in spec.chunks:
+            want = ch.get("default")
+            arr = getattr(m, alias.get(ch["name"], ch["name"]), None)
+            if isinstance(want, list) and arr is not None and hasattr(arr, "values"):
+                # enum-typed arrays are specified by member name
+                got = [getattr(v, "name", v) if isinstance(w, str) else getattr(v, "value", v) for v, w in zip(arr.values, want)]
+                if len(arr.values) != len(want):
+                    got = None
+                H.check("absent_chunk_leaves_documented_default", got == list(want),
+                        witness={"file": os.path.basename(path), "chunk": ch["name"], "when": tag, "first_difference": next((i for i, (x, y) in enumerate(zip(got or [], want)) if x != y), None)})
+        if hasattr(m, "drawn_waveform"):
+            H.check("absent_waveform_leaves_documented_default", list(m.drawn_waveform.samples) == F.DRAWN_WAVEFORM_DEFAULT,
+                    witness={"file": os.path.basename(path), "when": tag})
+
+    defaults_ok(a, "first load")
+    for k, v in vars(a).items():
+        vals = getattr(v, "values", None)
+        if isinstance(vals, list) and vals and all(isinstance(x, int) and not isinstance(x, bool) for x in vals):
+            for i in range(len(vals)):
+                vals[i] = (vals[i] + 1 + i) % 200
+    if hasattr(a, "drawn_waveform"):
+        for i in range(len(a.drawn_waveform.samples)):
+            a.drawn_waveform.samples[i] = (i * 3) % 100
+    b = _load(stripped).module
+    defaults_ok(b, "second load, after the first object was edited in place")
